@@ -416,6 +416,7 @@ class MultiAxis(Axis):
         self._values = None  # values not computed unless needed
         self._size = None  
         self._attrs = dict()
+        self._monotonic = None # as Axis.__init__: read by Axis.__getitem__
 
     @property
     def values(self):
